@@ -11,7 +11,7 @@
     (row.go reconstructFuncOf...). *)
 From Coq Require Import List Arith Bool NArith Lia.
 From PQ Require Import Dremel.Model Dremel.Proofs Dremel.Levels Dremel.NullRuns Dremel.NullRunsProofs
-  Dremel.Batch Dremel.BatchProofs.
+  Dremel.Batch Dremel.BatchProofs Dremel.BatchScan Dremel.BatchScanProofs.
 Import ListNotations.
 
 Section C03.
@@ -100,6 +100,19 @@ Section C03.
     intros s rows. apply (shred_batch_rows V). intros _ col. apply max_runs_ok.
   Qed.
 
+  (** The typed path exactly as the library runs it on non-pointer `optional`
+      fields: nullIndex builds the bitmap of the field's rows, the faithful model
+      of the 64-rows-at-a-time scanner ([scan], below) cuts it into runs, and
+      each run is one call ([scan_chunks]). *)
+  Theorem C03_batch_with_bitmap_scanner :
+    forall s (rows : list (value V)), Forall (wf s) rows ->
+      shred_batch (fun _ => scan_chunks) s rows = shred_rows s rows.
+  Proof. exact (shred_batch_scan V). Qed.
+
+  Theorem C03_bitmap_scanner_cutting_admissible :
+    forall col : list (value V), chunks_ok (scan_chunks col) col.
+  Proof. exact (scan_chunks_ok V). Qed.
+
   (** Which positions are null is the same on both paths. *)
   Theorem C03_null_positions_agree :
     forall (chunks : list nat -> list (value V) -> list (list (value V))),
@@ -114,7 +127,7 @@ End C03.
 
 (** The run scanner of writeRowsFuncOfOptional: for every bitmap of 64-bit
     words with at least ceil(n/64) words — the bits at positions >= n are
-    arbitrary: nullIndex leaves them 0, nullIndexStruct sets them — the runs are
+    arbitrary (the nullIndex kernels leave them 0) — the runs are
     consecutive from 0 to n, non-empty, and uniform (all rows of a null run
     have bit 0, all rows of a non-null run have bit 1): writing each run with a
     single definition level is right. *)
@@ -154,6 +167,8 @@ Print Assumptions C03_row_starts_at_repetition_zero.
 Print Assumptions C03_batch_equals_rows.
 Print Assumptions C03_batch_one_call_per_row.
 Print Assumptions C03_batch_maximal_runs.
+Print Assumptions C03_batch_with_bitmap_scanner.
+Print Assumptions C03_bitmap_scanner_cutting_admissible.
 Print Assumptions C03_null_positions_agree.
 Print Assumptions C03_null_runs_partition.
 Print Assumptions C03_null_runs_maximal.
@@ -194,6 +209,11 @@ Proof. vm_compute. reflexivity. Qed.
 
 Example C03_ex_batch :
   shred_batch (fun _ => max_runs) ex_schema [ex_row1; ex_row2; ex_row3]
+  = shred_rows ex_schema [ex_row1; ex_row2; ex_row3].
+Proof. vm_compute. reflexivity. Qed.
+
+Example C03_ex_batch_scanner :
+  shred_batch (fun _ => scan_chunks) ex_schema [ex_row1; ex_row2; ex_row3]
   = shred_rows ex_schema [ex_row1; ex_row2; ex_row3].
 Proof. vm_compute. reflexivity. Qed.
 
